@@ -145,14 +145,10 @@ class DecTheory(ObjTheory):
         if isinstance(a, ObjV) and a.role == "match-or-none":
             return z3.Not(a.info["ok"])
         if isinstance(a, ObjV) and a.role == "regex" and a.info.get("maybe_none"):
-            key = "none:" + str(a.info["pat"])
-            if key not in ex.st.th:
-                ex.st.th[key] = fresh("regex_is_none", B)
-            return ex.st.th[key]
+            # a grammar attribute that may be None (ODL has no leap-second patterns): one global constant per pattern
+            return z3.Const(str(a.info["pat"]) + "_is_none", B)
         if isinstance(a, ObjV) and a.role == "tz-or-none":
-            if "tz_none" not in ex.st.th:
-                ex.st.th["tz_none"] = fresh("default_timezone_is_none", B)
-            return ex.st.th["tz_none"]
+            return z3.Const("grammar_default_timezone_is_none", B)
         if isinstance(a, ObjV) and a.role == "offset-or-none":
             return a.info["none"]
         return super().is_none(ex, a)
@@ -320,9 +316,14 @@ class DecTheory(ObjTheory):
             if name in ("date", "time"):
                 return ObjV("dtval", info=dict(recv.info, kind=name))
             if name == "utcoffset":
-                return ObjV("offset-or-none", info={"none": fresh("naive", B)})
+                # strptime with a format without %z gives a naive object (ground obligation: no format has %z);
+                # after replace(tzinfo=...) the object is aware
+                return ObjV("offset-or-none", info={"none": z3.BoolVal(not recv.info.get("tz"))})
             if name == "replace":
-                return ObjV("dtval", info=dict(recv.info, tz=True))
+                tz = kwargs.get("tzinfo")
+                which = "utc" if isinstance(tz, FuncV) and tz.name == "timezone.utc" else \
+                    "default" if isinstance(tz, ObjV) and tz.role == "tz-or-none" else "other"
+                return ObjV("dtval", info=dict(recv.info, tz=which))
         if isinstance(recv, ObjV) and recv.role == "val" and name in ("replace", "utcoffset", "date", "time"):
             return ObjV("val")
         if isinstance(recv, ObjV) and recv.role == "dict" and name in ("get",):
